@@ -88,6 +88,12 @@ pub enum Op {
     /// `listen to it` directly after `say <plain var>` (pronoun = that var)
     ListenIt(VarId),
     SayConcat(String, VarId),
+    /// `say C plus k` / `minus` / `times` on a loop counter (a number)
+    SayArith(VarId, u8, i64),
+    /// `say <condition>`: prints true or false
+    SayCond(Cond),
+    /// `cut X into Bits` then `say Bits`: the number of characters of X
+    SayLength(VarId),
     Listen(Option<VarRef>),
     AssignLit(VarRef, String),
     AssignInt(VarId, i64),
@@ -217,8 +223,8 @@ struct Model<'a> {
     in_say_call: u32,
 }
 
-const STEP_LIMIT: usize = 4000;
-const EVENT_LIMIT: usize = 400;
+const STEP_LIMIT: usize = 40_000;
+const EVENT_LIMIT: usize = 6_000;
 
 pub fn init_literal(v: VarId) -> String {
     format!("init-{}", v)
@@ -438,6 +444,33 @@ impl<'a> Model<'a> {
                 Op::SayConcat(lit, v) => {
                     let t = format!("{}{}", lit, self.get(&VarRef::Plain(*v)).text());
                     self.say(&t)
+                }
+                Op::SayArith(c, op, k) => {
+                    let n = match self.env.get(c) {
+                        Some(V::Num(n)) => *n,
+                        _ => 0,
+                    };
+                    let r = match op % 3 {
+                        0 => n + k,
+                        1 => n - k,
+                        _ => n * k,
+                    };
+                    self.say(&r.to_string())
+                }
+                Op::SayCond(c) => {
+                    let t = if self.cond(c) { "true" } else { "false" };
+                    self.say(t)
+                }
+                Op::SayLength(v) => {
+                    let n = match self.env.get(v) {
+                        Some(V::Str(s)) => s.chars().count(),
+                        _ => {
+                            // only strings can be cut: a runtime error
+                            self.e.outcome = Outcome::Die;
+                            return Flow::Stop;
+                        }
+                    };
+                    self.say(&n.to_string())
                 }
                 Op::Listen(dest) => match self.listen() {
                     Some(line) => {
